@@ -184,7 +184,7 @@ func RouterCases(seed int64, n int) []Case {
 	// literal spelled like a sibling's variable (the variable of template 1 at
 	// position 2 is named v2)
 	{
-		for i, set := range [][]string{{"a-b/a", "a_b/b"}, {"a/v2/a", "a/{}/b"}, {"a.b/a", "a-b/{}", "ab/b"}, {"a/-/a", "a/_/b", "a/{}/{}"}, {"café/{}", "größe/{}/b", "日本/a/{}"}} {
+		for i, set := range [][]string{{"a-b/a", "a_b/b"}, {"a/v2/a", "a/{}/b"}, {"a.b/a", "a-b/{}", "ab/b"}, {"a/-/a", "a/_/b", "a/{}/{}"}, {"café/{}", "größe/{}/b", "日本/a/{}"}, {"2.0/a", "2.0/{}/b", "1/a", "a/b"}} {
 			var ts []tmpl
 			for _, s := range set {
 				ts = append(ts, tmpl{strings.Split(s, "/")})
